@@ -359,12 +359,51 @@ var c04FixedStrings = []string{
 	"", "a", "abc", "B", "I", "L", "true", "123", "-", "+", "-1", "1b", "1.5", "1e5", ".5", "0x1",
 	"1.5.5", "Infinity", "NaN", "a b", `a"b`, `a'b`, `"`, `'`, `"'`, `''"`, `\`, `\\"`, `a\'b"`,
 	":", ",", "{}", "[B;", "\xc3\xa9", "\x00\x7f\x80\xff", "\n", "\t", strings.Repeat("x", 300),
+	// both quoting branches of writeEscapeStr with every kind of character present:
+	// more " than ' (single-quote branch) with ' and \ inside; as many or fewer (double-quote branch)
+	`"it's"`, `say "it's"`, `""'`, `"'"`, `'""`, `""'\`, `"\'"`, `\'""`, `"a'b\c"`, `"\\'\"`, `""''\`, `"'\"'"`,
+	`'it"s'`, `''"\`, `'"'`, `"''`, `'\"'`, `\"''`, `'a"b\c'`,
+}
+
+const c04QuoteAlphabet = "\"\"\"'''\\\\a 1"
+
+// c04QuoteString: a short string over quotes, backslashes and a few plain characters; half of the time it is
+// adjusted so that all three special characters occur and the double quotes are in the majority (the branch of
+// writeEscapeStr that quotes with '), a quarter of the time so that the single quotes are not in the minority,
+// otherwise left as drawn
+func c04QuoteString(c *Ctx) string {
+	b := make([]byte, 1+c.R.Intn(8))
+	for i := range b {
+		b[i] = c04QuoteAlphabet[c.R.Intn(len(c04QuoteAlphabet))]
+	}
+	switch c.R.Intn(4) {
+	case 0, 1:
+		// force dc > sc >= 1, with a backslash
+		b = append(b, '\'', '\\')
+		dc, sc := bytes.Count(b, []byte{'"'}), bytes.Count(b, []byte{'\''})
+		for dc <= sc {
+			b = append(b, '"')
+			dc++
+		}
+	case 2:
+		// force sc >= dc >= 1, with a backslash
+		b = append(b, '"', '\\')
+		dc, sc := bytes.Count(b, []byte{'"'}), bytes.Count(b, []byte{'\''})
+		for sc < dc {
+			b = append(b, '\'')
+			sc++
+		}
+	}
+	c.R.Shuffle(len(b), func(i, j int) { b[i], b[j] = b[j], b[i] })
+	return string(b)
 }
 
 const c04Allowed = "0123456789ABCDEFGHIJKLMNOPQRSTUVWXYZabcdefghijklmnopqrstuvwxyz_.+-"
 
 func c04PoolString(c *Ctx) string {
-	switch k := c.R.Intn(10); {
+	switch k := c.R.Intn(12); {
+	case k >= 10:
+		return c04QuoteString(c)
 	case k < 6:
 		return c04FixedStrings[c.R.Intn(len(c04FixedStrings))]
 	case k < 8:
@@ -619,6 +658,20 @@ func (g *c04Gen) genDocs() {
 		g.valid(9, c04EncString(c04be32([]byte{8}, 1), s), true)
 		g.valid(9, c04EncString(c04EncString(c04be32([]byte{8}, 2), s), "z"), true)
 		g.valid(9, c04EncString(c04EncString(c04be32([]byte{8}, 2), "z"), s), true)
+	}
+	// strings with mixed quote kinds and backslashes: value, compound key, list element
+	for i := 0; i < c.N(300, 6000); i++ {
+		s := c04QuoteString(c)
+		switch i % 3 {
+		case 0:
+			g.valid(8, c04EncString(nil, s), true)
+		case 1:
+			b := c04EncString([]byte{8}, s)
+			b = append(c04EncString(b, c04QuoteString(c)), 0)
+			g.valid(10, b, true)
+		default:
+			g.valid(9, c04EncString(c04EncString(c04be32([]byte{8}, 2), s), c04QuoteString(c)), true)
+		}
 	}
 	// integer extremes of every width
 	for _, w := range []struct {
